@@ -29,6 +29,11 @@ CFG = {
         "Class par-eq (instances confined to their own goroutine, really parallel) is sound under every schedule because "
         "instances share nothing by contract: each emitted round is judged by Coq against the sequential model of its own "
         "history; the Go-side suspect filter only selects what is shown and can cause a miss, never an alarm. "
+        "Aliased arguments (class eq-selfalias): the model has value semantics - a Write step carries the bytes its argument held at "
+        "the call - so for Write(b.Bytes()[k:]) the model / contract state what a correct self-append yields (old contents followed "
+        "by their own tail), which is also what bytes.Buffer shows on every grow path (reslice: disjoint destination; slide only when "
+        "off > cap/2 >= m+n, so neither copy reaches the argument; reallocate: the argument stays in the old array). Only Bytes() is "
+        "used as an aliasing argument, never the slice returned by Next (a later slide may legitimately reuse that storage). "
         "ReWrite addresses the storage from its start; the contract fixes the addressing only while the consumed "
         "prefix is known (no write/Grow/ReadFrom since a read moved the offset) - ReWrite steps outside that are "
         "checked against the concrete model only (case_accept), not by case_holds. No axioms."),
@@ -51,6 +56,12 @@ CFG = {
              "readers / writers also answer with errors that must keep their identity (wrapping io.EOF, wrapping "
              "io.ErrUnexpectedEOF, a custom Is(io.EOF) type, errors.Join with io.EOF, io.ErrUnexpectedEOF, a writer's io.EOF), "
              "(0, nil) reads and EOF together with bytes; "
+             "class eq-selfalias (330 deterministic histories, the same on every seed, emitted after all other classes): "
+             "Write(b.Bytes()[k:]) - the argument ALIASES the buffer's own unread window - after Next(r), from zero-value and "
+             "NewBuffer starts of 20..100 bytes (capacity 64 / 128 / exact), r and k on a grid (0, 1, 5, 10, half, all but one, all), "
+             "three aliased writes per history so that the reslice, slide-down, reallocate and reset-if-empty paths of grow are all "
+             "taken with an aliased argument; bytes.Buffer runs the same aliased call on its own storage and defines the expected "
+             "result; the Coq term carries the bytes the argument held when the call was made; "
              "a case is non-trivial when at least two of its operations moved bytes (wrote "
              "something or consumed at least one byte); distinct = distinct Coq term (operations + everything observed)"),
     "trusted": ["bytes.Buffer of the installed Go toolchain as the reference implementation (observed, not proved)",
